@@ -1007,3 +1007,46 @@ def check_upow(ctx, res):
 
 def check_ranges(ctx, res):
     run_targets(ctx, res, range_targets, "R5-range-term", 2, "R5: gen_biguint_range / gen_bigint_range return lbound + below(ubound - lbound) (below(ubound) for lbound = 0, lbound + below(|lbound|) for ubound = 0) and panic unless lbound < ubound")
+
+
+def o_shl(c):
+    s, A = c.sm(1)
+    k = c.init_val(2)
+    if A.is_zero():
+        return Poly()
+    if k.is_zero():
+        return A * s
+    return opaque_sym("shl", A, k).subst(c.st.subst) * s
+
+
+def o_shr(c):
+    s, A = c.sm(1)
+    k = c.init_val(2)
+    if A.is_zero():
+        return Poly()
+    m = A if k.is_zero() else opaque_sym("shr", A, k).subst(c.st.subst)
+    if s >= 0:
+        return m
+    rd = c.st.bools.get("round_down")
+    if rd is None:
+        raise Mismatch("the rounding decision for a negative value was never consulted")
+    return -(m + (1 if rd else 0))
+
+
+def shift_targets(facts):
+    ops, classes = r2.analyse(facts)
+    out = []
+    for b in ops:
+        if classes[b.path]["kind"] != "leaf":
+            continue
+        fam = r2.family_of(b)
+        if fam not in ("Shl", "Shr"):
+            continue
+        if not any("bigint::BigInt" in t for t in [b.self_ty] + list(b.trait_args)):
+            continue
+        out.append((b, o_shl if fam == "Shl" else o_shr, "arg1" if b.trait.endswith("Assign") else "return", "a << k = s*(|a| << k)" if fam == "Shl" else "a >> k = floor(a / 2^k)"))
+    return out
+
+
+def check_shifts(ctx, res):
+    run_targets(ctx, res, shift_targets, "R5-shift", 70, "R5: the 72 BigInt shift leaves keep the sign, shift the magnitude, add the rounding increment to negative right shifts and leave a canonical value (zero result -> NoSign)")
